@@ -183,3 +183,34 @@ def handle_is_param_field(field_type_pred=None, field=None, addr=True, param_ind
                 return False, "field %s has unexpected type %s" % (a["field"], t and t["s"])
         return True, ""
     return pred
+
+
+def check_wrapper_through(rep, rule, fn, native, **kw):
+    """Like check_wrapper, but follows one static pass-through helper: when fn
+    does not call `native` itself and calls exactly one function of its own
+    unit that does, the helper is checked against `native` and fn against the
+    helper (TRUE iff the helper returns TRUE, own parameter forwarded)."""
+    direct = [c for (b, i, c) in fn.calls() if callee_of(c) == native]
+    if direct:
+        return check_wrapper(rep, rule, fn, native, **kw)
+    helpers = []
+    for (b, i, c) in fn.calls():
+        h = fn.unit.functions.get(c.get("callee") or "")
+        if h is not None and any(callee_of(x) == native for (_, _, x) in h.calls()):
+            helpers.append((h, c))
+    if len(helpers) != 1:
+        rep.ob(rule, fn, "wire:" + native, False, "%s neither calls %s nor exactly one helper that does" % (fn.name, native), fn.loc[0])
+        return False
+    h, c = helpers[0]
+    ok1 = check_wrapper(rep, rule, h, native, **kw)
+
+    def fwd(arg, f):
+        a = strip_casts(arg)
+        ps = f.param_names()
+        if a is not None and a["k"] == "ref" and ps and a["name"] == ps[0]:
+            return True, ""
+        return False, "the helper is not called on %s's own parameter" % f.name
+    ok2 = check_wrapper(rep, rule, fn, h.name, handle=fwd, success=("==", 1), failure=("==", 0),
+                        forbidden=kw.get("forbidden", ()), site="wire:%s:via:%s" % (native, h.name),
+                        allow_zero_call_true=False)
+    return ok1 and ok2
